@@ -66,9 +66,11 @@ CLAIMED = {
              "exported exactly, in order, with its direction; inner type and padding handling included), C01_tls13_flight (a direction's encrypted handshake flight cut into "
              "records at ANY bytes -- grouped or fragmented -- switches that direction to its application keys exactly at its Finished, other direction untouched), "
              "C01_tls13_connection (server flight, client flight, then any application history: exactly the application contents are exported), C01_fresh_decryptor (the "
-             "premises are what Decryptor.__init__ yields from a complete key set). "
-             "Keys are C15's theorems, record delivery C05's, output concatenation C06's. NOT proved: hello parsing and key lookup, the CCS/Finished bookkeeping of "
-             "TLS <= 1.2, TLS 1.3 server data before the client Finished and post-handshake messages: decided by the independent reference sender "
+             "premises are what Decryptor.__init__ yields from a complete key set); TLS 1.2 AEAD and ChaCha20-Poly1305: C01_tls12_aead_session / C01_tls12_chacha_session (behind the "
+             "ServerHello, from the ChangeCipherSpec records on: each direction's ChangeCipherSpec, then its Finished and application records in any mix, the directions "
+             "interleaved in any way -- exactly the application contents are exported as application data, in order; handshake records and ChangeCipherSpec only as metadata). "
+             "Keys are C15's theorems, record delivery C05's, output concatenation C06's. NOT proved: hello parsing and key lookup, the session-level "
+             "bookkeeping for the CBC and RC4 classes, TLS 1.3 server data before the client Finished and post-handshake messages: decided by the independent reference sender "
              "(all versions x all ~200 table suites x handshake shapes x histories x segmentations) on the implementation and by byte-exact correspondence of the session model.",
         note="Trusted: Coq kernel; CryptoLaws as a hypothesis on the Crypto record (named in the statements); Spec/TlsRecords.v as a transcription of the record layer RFCs; "
              "tools/ref/tls_ref.py as the oracle of the search; no compression, renegotiation, KeyUpdate, 0-RTT, HRR (as in the property).",
